@@ -393,6 +393,17 @@ func genLengthLie(t *rapid.T, recv string) []byte {
 			if i == k-1 {
 				d = delta()
 			}
+			if !(w != 0 && i == w-1) && rapid.IntRange(0, 5).Draw(t, "longleb") == 0 {
+				// an over-long LEB128 (up to 11 continuation groups): reads as a huge or wrapped length
+				nn := rapid.IntRange(1, 11).Draw(t, "longlebn")
+				for q := 0; q < nn; q++ {
+					b = append(b, rapid.SampledFrom([]uint8{0x80, 0xFF, 0x81, 0xC0}).Draw(t, "longlebb"))
+				}
+				b = append(b, rapid.SampledFrom([]uint8{0x00, 0x01, 0x7F, 0x02}).Draw(t, "longlebt"))
+				b = append(b, u...)
+
+				continue
+			}
 			if !(w != 0 && i == w-1) {
 				v := len(u) + d
 				if v < 0 {
